@@ -12,3 +12,65 @@ def jobs(tier):
 def info(tier, results):
     return {'level': 'proof', 'trusted_base': ['clang 14 AST', 'osmt2c lowering (ghost-size mode for buf and buf_out)', 'CBMC 6.11 dfcc + loop contracts'],
             'assumptions': [], 'explanation': ''}
+
+
+# ------------------------------------------------------------------------------------------------- replay
+import subprocess, tempfile, shutil, time
+import vrun
+CORPUS = [
+  '(set-logic QF_UF)\n(echo "a\\"b")\n(check-sat)\n',
+  '(set-logic QF_UF)\n(echo "x) (y")\n(echo "p\\\\")\n(check-sat)\n',
+  '(set-logic QF_UF)\n(declare-fun |a ) ; b| () Bool)\n(assert |a ) ; b|)\n(check-sat)\n',
+  '; a comment with ( and " and |\n(set-logic QF_UF) ; trailing ) comment\n(declare-fun p () Bool)\n(assert p)\n(check-sat)\n',
+  ';123456789012345\n(set-logic QF_UF)\n(check-sat)\n',
+  '(set-logic QF_UF)\n(echo "aaaaaaa\\" ) x")\n(check-sat)\n',
+  '(set-logic QF_UF)(declare-fun p () Bool)(assert\n (and p\n  p))(check-sat)(exit)\n(check-sat)\n',
+]
+def _run(exe, script, mode, chunk):
+    if mode == 'file':
+        d = tempfile.mkdtemp(prefix='osmt-c20.'); f = os.path.join(d, 's.smt2'); open(f, 'w').write(script)
+        try:
+            p = subprocess.run([exe, f], capture_output=True, timeout=60); return p.returncode, p.stdout
+        finally: shutil.rmtree(d, ignore_errors=True)
+    p = subprocess.Popen([exe, '-p'], stdin=subprocess.PIPE, stdout=subprocess.PIPE, stderr=subprocess.PIPE)
+    data = script.encode()
+    try:
+        for k in range(0, len(data), chunk):
+            p.stdin.write(data[k:k + chunk]); p.stdin.flush(); time.sleep(0.002)
+        p.stdin.close()
+    except BrokenPipeError: pass
+    out = p.stdout.read(); p.wait(timeout=60); return p.returncode, out
+
+_BUILD = {}
+def _build():
+    """the executable is built once per check run, in a scratch directory that is removed when the process exits"""
+    import atexit
+    if 'exe' in _BUILD: return _BUILD['exe']
+    d = tempfile.mkdtemp(prefix='osmt-c20build.')
+    atexit.register(lambda: shutil.rmtree(d, ignore_errors=True))
+    cfg = ['cmake', '-S', vrun.REPO, '-B', d, '-G', 'Ninja', '-DCMAKE_BUILD_TYPE=Release', '-DFETCHCONTENT_FULLY_DISCONNECTED=ON', '-DFETCHCONTENT_SOURCE_DIR_GOOGLETEST=/usr/src/googletest', '-DPACKAGE_TESTS=OFF']
+    c = subprocess.run(cfg, capture_output=True, text=True, timeout=600)
+    if c.returncode != 0: _BUILD['exe'] = {'reproduced': False, 'error': 'configure failed: ' + c.stderr[-300:]}; return _BUILD['exe']
+    c = subprocess.run(['cmake', '--build', d, '--target', 'OpenSMT-bin', '-j16'], capture_output=True, text=True, timeout=3000)
+    exe = os.path.join(d, 'opensmt')
+    if c.returncode != 0 or not os.path.exists(exe): _BUILD['exe'] = {'reproduced': False, 'error': 'build failed: ' + (c.stdout + c.stderr)[-400:]}; return _BUILD['exe']
+    _BUILD['exe'] = exe
+    return exe
+
+def replay(r, o):
+    """build the real executable from the current tree (scratch dir) and compare -p with file mode on a fixed corpus of
+    scripts (escapes, comments, quoted symbols, comment lengths around the read sizes) under several chunkings"""
+    exe = _build()
+    if isinstance(exe, dict): return exe
+    if True:
+        scripts = list(CORPUS) + [';' + 'c' * n + '\n(set-logic QF_UF)\n(check-sat)\n' for n in range(0, 70)] \
+                  + ['(set-logic QF_UF)\n(echo "' + 'a' * n + '\\" ) x")\n(check-sat)\n' for n in range(0, 40)]
+        tried = 0
+        for sc in scripts:
+            want = _run(exe, sc, 'file', 0)
+            for chunk in (1, 7, 15, 16, 1 << 20):
+                got = _run(exe, sc, 'pipe', chunk); tried += 1
+                if got != want:
+                    return {'reproduced': True, 'input': sc, 'chunk_bytes': chunk, 'file_mode': [want[0], want[1].decode(errors='replace')[-300:]], 'pipe_mode': [got[0], got[1].decode(errors='replace')[-300:]],
+                            'how': 'opensmt built from %s; same script as a file and through -p' % vrun.REPO, 'runs': tried}
+        return {'reproduced': False, 'reason': 'pipe and file mode agree on the whole corpus (%d runs)' % tried}
